@@ -7,6 +7,9 @@ import (
 	aftpb "github.com/openconfig/gribi/v1/proto/gribi_aft"
 	spb "github.com/openconfig/gribi/v1/proto/service"
 
+	"github.com/openconfig/gribigo/server"
+
+	"verifharness/canon"
 	"verifharness/drv"
 	"verifharness/ev"
 	"verifharness/gen"
@@ -96,3 +99,94 @@ func afterFatalInput(run *ev.Run) {
 		run.Distinct(caseID)
 	})
 }
+
+// uncheckedInvalid: the invalid classes that do not depend on what else is installed (zero
+// indices, nil payloads, unknown / empty instance names, unsupported operation types) on a
+// server whose RIB consistency checks are disabled (server.DisableRIBCheckFn - a supported
+// configuration in which the validation must not depend on the check functions). Each must
+// be answered FAILED (or with a clean RPC error) and leave the contents as they were.
+func uncheckedInvalid(run *ev.Run) {
+	n := run.Pick(40, 1000)
+	ev.Parallel(n, ev.Workers(), func(i int) {
+		caseID := fmt.Sprintf("unchecked-invalid-%d", i)
+		if !run.Want(caseID) {
+			return
+		}
+		r := run.Rand(caseID)
+		srv, err := drv.NewServer([]string{"VRF1"}, server.DisableRIBCheckFn())
+		if err != nil {
+			run.Fatal(err.Error())
+			return
+		}
+		R := srv.VerifRIB()
+		nhOp := func(id, idx uint64, kind spb.AFTOperation_Operation, payload bool) *spb.AFTOperation {
+			k := &aftpb.Afts_NextHopKey{Index: idx}
+			if payload {
+				k.NextHop = &aftpb.Afts_NextHop{IpAddress: gen.S("192.0.2.1")}
+			}
+			return &spb.AFTOperation{Id: id, NetworkInstance: "DEFAULT", Op: kind, Entry: &spb.AFTOperation_NextHop{NextHop: k}}
+		}
+		nhgOp := func(id, gid uint64, kind spb.AFTOperation_Operation, payload bool) *spb.AFTOperation {
+			k := &aftpb.Afts_NextHopGroupKey{Id: gid}
+			if payload {
+				k.NextHopGroup = &aftpb.Afts_NextHopGroup{NextHop: []*aftpb.Afts_NextHopGroup_NextHopKey{{Index: 1, NextHop: &aftpb.Afts_NextHopGroup_NextHop{Weight: gen.U(1)}}}}
+			}
+			return &spb.AFTOperation{Id: id, NetworkInstance: "DEFAULT", Op: kind, Entry: &spb.AFTOperation_NextHopGroup{NextHopGroup: k}}
+		}
+		for k, op := range []*spb.AFTOperation{nhOp(1, 1, spb.AFTOperation_ADD, true), nhOp(2, 2, spb.AFTOperation_ADD, true), nhgOp(3, 1, spb.AFTOperation_ADD, true)} {
+			if oks, fails, err := mon.Apply(R, gen.OpSpec{NI: "DEFAULT", Op: op}); err != nil || len(fails) > 0 || len(oks) != 1 {
+				run.Fatal(fmt.Sprintf("%s: set-up operation %d: %v %v %v", caseID, k, oks, fails, err))
+				return
+			}
+		}
+		snapshot := func() string {
+			c, err := R.RIBContents()
+			if err != nil {
+				return "error: " + err.Error()
+			}
+			return canon.FromYgot(c).String()
+		}
+		kinds := []spb.AFTOperation_Operation{spb.AFTOperation_ADD, spb.AFTOperation_REPLACE, spb.AFTOperation_DELETE}
+		var trace, probs []string
+		for step := 0; step < 12 && len(probs) == 0; step++ {
+			kind := kinds[r.Intn(3)]
+			payload := kind != spb.AFTOperation_DELETE || r.Intn(2) == 0
+			var op *spb.AFTOperation
+			var class string
+			switch r.Intn(5) {
+			case 0:
+				// (for ADD / REPLACE the zero-index validation is part of the consistency checks
+				// this configuration switches off: only DELETE validates its key itself)
+				kind = spb.AFTOperation_DELETE
+				op, class = nhOp(uint64(100+step), 0, kind, r.Intn(2) == 0), "zero-nh-index"
+			case 1:
+				kind = spb.AFTOperation_DELETE
+				op, class = nhgOp(uint64(100+step), 0, kind, r.Intn(2) == 0), "zero-nhg-id"
+			case 2:
+				op, class = nhOp(uint64(100+step), 7, kind, payload), "unknown-ni"
+				op.NetworkInstance = "NOSUCH"
+			case 3:
+				op, class = nhOp(uint64(100+step), 7, kind, payload), "empty-ni"
+				op.NetworkInstance = ""
+			default:
+				op, class = &spb.AFTOperation{Id: uint64(100 + step), NetworkInstance: "DEFAULT", Op: kind}, "no-entry"
+			}
+			before := snapshot()
+			oks, fails, err := mon.Apply(R, gen.OpSpec{NI: op.NetworkInstance, Op: op})
+			trace = append(trace, fmt.Sprintf("%s %s => ok=%d failed=%d err=%v", kind, class, len(oks), len(fails), err))
+			if err == nil && len(fails) == 0 {
+				probs = append(probs, fmt.Sprintf("invalid-input-accepted:checks-disabled:%s:%s|%s was answered as programmed (%d results) by a RIB whose consistency checks are disabled", class, kind, pt(op), len(oks)))
+			}
+			if after := snapshot(); after != before {
+				probs = append(probs, fmt.Sprintf("rejected-input-changed-state:checks-disabled:%s|contents changed from %s to %s", class, before, after))
+			}
+			run.Count("invalid_inputs_with_checks_disabled", 1)
+			run.Seen("invalid_classes_with_checks_disabled", class+"/"+kind.String())
+		}
+		mon.Report(run, caseID, trace, probs)
+		run.Eval(1)
+		run.Distinct(caseID)
+	})
+}
+
+func pt(m *spb.AFTOperation) string { return fmt.Sprint(m) }
